@@ -462,7 +462,7 @@ class NetworkMixin(RadioMixin):
         """Broadcast a message to all nodes on a certain network level."""
         if not self._validate_msg_len(len(message)):
             message = message[:MAX_FRAG_SIZE]
-        level = self._net_lvl if level is None else min(3, max(level, 0))
+        level = self._net_lvl if level is None else min(4, max(level, 0))
         self.frame_buf.header.to_node = NETWORK_MULTICAST_ADDR
         self.frame_buf.header.from_node = self._addr
         message_type = (
